@@ -207,6 +207,10 @@ def measure(module: Operation) -> int:
             m += 2
         if "insu" in op.attributes and not (op.next_op is not None and "marker" in op.next_op.attributes):
             m += 3
+        if "insd" in op.attributes and not (op.prev_op is not None and "marker2" in op.prev_op.attributes):
+            m += 3
+        if "rmo" in op.attributes:
+            m += 3
         for r in op.results:
             if r.type == i32:
                 m += 1
@@ -385,6 +389,32 @@ class Lib:
             self.insert(rw, [marker], InsertPoint.after(op))
             self.st["match.InsertUser"] += 1
 
+    def p_insert_default(self, op: Operation, rw: PatternRewriter) -> None:
+        # insert at the rewriter's *own* insertion point (the driver sets it before the matched op)
+        if "insd" in op.attributes and op.parent is not None and not (op.prev_op is not None and "marker2" in op.prev_op.attributes):
+            marker = TestOp.create(attributes={"marker2": IntAttr(1)})
+            self.insert(rw, [marker])
+            self.j.add("default_ip", (marker, op))
+            self.st["match.InsertAtDefaultPoint"] += 1
+
+    def p_replace_matched(self, op: Operation, rw: PatternRewriter) -> None:
+        # the deprecated replace_matched_op: replaces whatever the rewriter is bound to
+        if "rmo" in op.attributes and not op.regions and not op.successors and isinstance(op, (TestOp, TestPureOp)) and op.parent is not None:
+            import warnings
+
+            keep = {k: v for k, v in op.attributes.items() if k != "rmo"}
+            n1 = type(op).create(operands=list(op.operands), result_types=list(op.result_types), attributes=keep)
+            self.j.add("insert", n1)
+            self.j.add("replace", op)
+            for old, new in zip(op.results, n1.results):
+                for u in _users(old):
+                    self.j.add("modify", u)
+            self.j.add("remove", op)
+            with warnings.catch_warnings():
+                warnings.simplefilter("ignore")
+                rw.replace_matched_op([n1])
+            self.st["match.ReplaceMatchedOp"] += 1
+
     def p_hoist(self, op: Operation, rw: PatternRewriter) -> None:
         # inline_block only: move the body of a single-block, argument-free region before the op
         if "hoist" in op.attributes and len(op.regions) == 1:
@@ -454,9 +484,9 @@ class Lib:
 PATTERN_NAMES = (
     "p_dec", "p_expand", "p_fold", "p_single_use", "p_erase_other", "p_replace_producer",
     "p_unwrap", "p_drop_arg", "p_add_arg", "p_retype", "p_region_move", "p_new_block",
-    "p_add_arg2", "p_insert_user", "p_hoist", "p_ruwi",
+    "p_add_arg2", "p_insert_user", "p_hoist", "p_ruwi", "p_insert_default", "p_replace_matched",
 )
-FLAGS = ("dec", "expand", "fold", "su", "eo", "victim", "rp", "victim2", "unwrap", "droparg", "retype", "rm", "addarg2", "insu", "hoist")
+FLAGS = ("dec", "expand", "fold", "su", "eo", "victim", "rp", "victim2", "unwrap", "droparg", "retype", "rm", "addarg2", "insu", "hoist", "insd", "rmo")
 
 
 class FnPattern(RewritePattern):
@@ -781,6 +811,11 @@ class DriverEngine(Engine):
                     raise OracleStop(
                         Violation("I1-stale-visit", "PatternRewriteWalker", wl.pops, f"pattern invoked on {u.nm(op)} ({op.name}) which is not attached to the rewritten module", "I1-stale-visit")
                     )
+                # I1b: the rewriter handed to the pattern is bound to this operation
+                if rewriter.current_operation is not op:
+                    raise OracleStop(
+                        Violation("I1-rewriter-binding", "PatternRewriteWalker", wl.pops, f"pattern invoked on {u.nm(op)} with a rewriter whose current_operation is {u.nm(rewriter.current_operation)}", "I1-rewriter-binding")
+                    )
                 before = snap_tree(u, module)
                 opmap = _operand_map(module)
                 journal.entries.clear()
@@ -790,6 +825,13 @@ class DriverEngine(Engine):
                 changed = before != after
                 if tr is not None and (changed or rewriter.has_done_action):
                     tr.append(f"  match on {u.nm(op)}: changed={changed} has_done_action={rewriter.has_done_action} journal={[(k, u.nm(o)) for k, o in journal.entries]}")
+                for kk, oo in journal.entries:
+                    if kk == "default_ip":
+                        mk, at = oo
+                        if mk.next_op is not at or mk.parent is not at.parent:
+                            raise OracleStop(
+                                Violation("I1-rewriter-binding", "PatternRewriteWalker", wl.pops, f"an op inserted at the rewriter's own insertion point during the match on {u.nm(at)} did not land right before it (insertion point left over from another match)", "I1-rewriter-binding:insertion-point")
+                            )
                 # I2: the action flag is set whenever the match mutated the IR
                 if changed and not rewriter.has_done_action:
                     raise OracleStop(Violation("I2-action-flag", "PatternRewriter", wl.pops, f"match on {u.nm(op)} changed the IR but has_done_action is False", "I2-action-flag"))
@@ -956,7 +998,7 @@ class DriverEngine(Engine):
     def rule(self) -> str:
         return (
             "one case = one generated module (2-41 ops, nesting <= 3, multi-block regions, optional arith constants/adds) x one "
-            "ordered subset of 16 terminating patterns x one walker configuration x one seeded worklist schedule "
+            "ordered subset of 18 terminating patterns x one walker configuration x one seeded worklist schedule "
             "(pop policy, spurious wake-ups); oracles I1-I6 evaluated per match and at the end; non-trivial = the walk modified "
             "the IR and popped more items than there were ops; distinct = distinct (config, IR, schedule) choice sequences"
         )
